@@ -46,6 +46,8 @@ def shards(tier, seed):
 		for p in range(parts):
 			out.append(dict(name=f'perm-n{n}-{p}', kind='perm', n=n, part=p, nparts=parts))
 	out.append(dict(name='perm-all-done-first', kind='alldone', n=5))
+	for n in (3, 4, 5):
+		out.append(dict(name=f'perm-repeated-n{n}', kind='perm', n=n, part=0, nparts=1, repeated=True))
 	for i, mode in enumerate(['none', 'threads', 'processes']):
 		reps = (3 if mode != 'processes' else 2) if tier == 'quick' else 10
 		for j in range(reps):
@@ -204,6 +206,12 @@ def run_perm(sh, ctx):
 	ks = KmerSpec(K, PREFIX)
 	n = sh['n']
 	files, exps = make_files(ctx, rng, n)
+	if sh.get('repeated'):
+		# the same file at two (n >= 5: three) positions of the list, under every completion order
+		files[n - 1], exps[n - 1] = files[0], exps[0]
+		if n >= 5:
+			files[2], exps[2] = files[0], exps[0]
+		ctx.count('runs_with_repeated_files')
 	singles = [gc.calc_file_signature(ks, f).tolist() for f in files]
 	if singles != exps:
 		ctx.violation('single-file-vs-definition', 'calc_file_signature differs from the reference definition', dict(n=n))
@@ -321,6 +329,24 @@ def _run_pool(sh, ctx, gc, KmerSpec):
 			ks = KmerSpec(spec[0], spec[1])
 			ctx.seen('kmerspecs_used_in_one_process', f'{spec[0]}/{spec[1].decode()}')
 			files, exps = make_files(ctx, rng, n, skew=skew, tag=f'r{r}_', spec=spec)
+			uniq = list(files)
+			dups = 0
+			if r % 3 == 1 or (n >= 2 and rng.random() < 0.2):
+				# the same file listed more than once (same object, an equal object, or an equivalent spelling of the path)
+				import attr
+				for _ in range(rng.randint(1, 3)):
+					j = rng.randrange(len(files)); at = rng.randint(0, len(files))
+					f = files[j]
+					c = rng.random()
+					if c < 0.4:
+						f2 = f
+					elif c < 0.7:
+						f2 = attr.evolve(f)
+					else:
+						f2 = attr.evolve(f, path=type(f.path)(os.path.join(os.path.dirname(str(f.path)), '.', os.path.basename(str(f.path)))))
+					files.insert(at, f2); exps.insert(at, exps[j]); dups += 1
+				n = len(files)
+				ctx.count('runs_with_repeated_files')
 			_DELAYS.clear()
 			style = rng.choice(['none', 'decreasing', 'random'])
 			for i, f in enumerate(files):
@@ -330,7 +356,7 @@ def _run_pool(sh, ctx, gc, KmerSpec):
 					_DELAYS[str(f.path)] = rng.random() * 0.02
 			workers = rng.choice([1, 2, 3, 4, 8, 16, None])
 			own = rng.random() < 0.3 and mode is not None
-			w = dict(n=n, mode=sh['mode'], max_workers=workers, skew=skew, delays=style, caller_executor=own, kmerspec=f'{spec[0]}/{spec[1].decode()}')
+			w = dict(n=n, mode=sh['mode'], max_workers=workers, skew=skew, delays=style, caller_executor=own, kmerspec=f'{spec[0]}/{spec[1].decode()}', repeated_files=dups)
 			rec.orders.clear()
 			ex = None
 			try:
@@ -348,10 +374,13 @@ def _run_pool(sh, ctx, gc, KmerSpec):
 			ctx.count(f'pool_runs:{sh["mode"]}')
 			if rec.orders:
 				o = rec.orders[-1]
-				ctx.count('pool_orders_observed')
-				if o != sorted(o):
-					ctx.count('pool_orders_not_identity')
-				ctx.seen('pool_orders', tuple(o[:12]))
+				if any(not isinstance(x, int) for x in o):
+					ctx.count('pool_orders_unobservable')      # observation only: the future -> index map is an internal detail
+				else:
+					ctx.count('pool_orders_observed')
+					if o != sorted(o):
+						ctx.count('pool_orders_not_identity')
+					ctx.seen('pool_orders', tuple(o[:12]))
 			check_result(ctx, res, exps, w, f'pool {sh["mode"]}')
 			if ex is not None:
 				try:
@@ -364,7 +393,7 @@ def _run_pool(sh, ctx, gc, KmerSpec):
 				except Exception as e:
 					ctx.violation('caller-executor-shut-down', f'caller-supplied executor unusable afterwards: {type(e).__name__}: {e}', w)
 				ex.shutdown()
-			for f in files:
+			for f in uniq:
 				try:
 					os.unlink(f.path)
 				except OSError:
@@ -519,7 +548,7 @@ def run_shard(sh, ctx):
 def finalize(merged, tier, seed, inconclusive):
 	c = merged['counters']
 	for n in ['forced_runs', 'orders_delivered_exactly_as_chosen', 'non_identity_orders_delivered', 'pool_runs:none', 'pool_runs:threads', 'pool_runs:processes',
-	          'failures_propagated', 'caller_executor_still_usable', 'failure_runs:processes', 'failure_runs:perm', 'yield_injections', 'successful_calls_after_a_failed_call']:
+	          'failures_propagated', 'caller_executor_still_usable', 'failure_runs:processes', 'failure_runs:perm', 'yield_injections', 'successful_calls_after_a_failed_call', 'runs_with_repeated_files']:
 		if c.get(n, 0) == 0:
 			inconclusive.append(f'class never observed: {n}')
 	if c.get('pool_orders_observed', 0) and c.get('pool_orders_not_identity', 0) == 0:
